@@ -5,7 +5,8 @@
    transform_rows is modelled as repaired by fixes/C15-one-knot-rows.diff). *)
 From QV.lib Require Import Prelude.
 From QV.model Require Import C15_Model.
-From QV.proof Require Import C15_Proofs.
+From QV.proof Require Import C15_Proofs C15_Proofs_Ext.
+From QV.lib Require Import Chunks.
 From Coq Require Import QArith Qround.
 Local Open Scope Q_scope.
 
@@ -168,3 +169,282 @@ Example C15_canvas_dim_example :
   canvas_dim 10 (1 # 4) = 12%Z /\ canvas_dim 16 (1 # 4) = 20%Z /\ canvas_dim 1 (1 # 4) = 2%Z /\
   canvas_dim 4 (1 # 4) = 4%Z /\ canvas_dim 12 (1 # 4) = 16%Z.
 Proof. vm_compute. repeat split. Qed.
+
+(* ====================================================================================== *)
+(* Round-3 extension                                                                      *)
+(* ====================================================================================== *)
+
+(* NON-initial knot arrays: whenever the K >= 2 knots of scan line r lie on a straight line with
+   uniform spacing (knot j at a + j/(K-1) * b, given pointwise up to ==), every pixel of the line is
+   at a + u * b — 2 knots through the linear interpolant, 3 and 4 knots through the interpolating
+   polynomial; a, b arbitrary (shifted, sheared, re-oriented lines) *)
+Theorem C15_coords_straight_knots :
+  forall (W K : nat) (s c : Q) (kn : knots_t) (a b : vec) (r col : nat),
+    (2 <= K <= 4)%nat ->
+    (forall j, (j < K)%nat ->
+       fst (kn r j) == fst a + basis K j * fst b /\ snd (kn r j) == snd a + basis K j * snd b) ->
+    fst (transform_coordinates W K s c kn r col) == fst a + u_param W col * fst b /\
+    snd (transform_coordinates W K s c kn r col) == snd a + u_param W col * snd b.
+Proof. exact coords_straight_knots_pointwise. Qed.
+Print Assumptions C15_coords_straight_knots.
+
+(* straight knot arrays with end-to-end vector (W-1) * scan_fast, starting anywhere (A r arbitrary
+   per scan line): 1, 2, 3 and 4 knots give identical coordinates *)
+Theorem C15_knots_agree_straight :
+  forall (W K K' : nat) (s c : Q) (A : nat -> vec) (r col : nat),
+    (1 <= K <= 4)%nat -> (1 <= K' <= 4)%nat ->
+    fst (transform_coordinates W K s c
+           (straight_knots K A (fun _ => vscale (qn W - 1) (scan_fast s c))) r col)
+    == fst (transform_coordinates W K' s c
+           (straight_knots K' A (fun _ => vscale (qn W - 1) (scan_fast s c))) r col) /\
+    snd (transform_coordinates W K s c
+           (straight_knots K A (fun _ => vscale (qn W - 1) (scan_fast s c))) r col)
+    == snd (transform_coordinates W K' s c
+           (straight_knots K' A (fun _ => vscale (qn W - 1) (scan_fast s c))) r col).
+Proof. exact knots_agree_straight. Qed.
+Print Assumptions C15_knots_agree_straight.
+
+(* the knots preprocess places ARE such an array *)
+Theorem C15_init_knot_straight :
+  forall (rows cols : Z) (H W K : nat) (s c : Q) (r j : nat),
+    (1 <= K <= 4)%nat -> (j < K)%nat ->
+    fst (init_knot rows cols H W K s c r j)
+    == fst (straight_knots K
+         (fun r => ( fst (canvas_centre rows cols) - half_extent W * s
+                       + linspace (- half_extent H) (half_extent H) H r * c,
+                     snd (canvas_centre rows cols) - half_extent W * c
+                       + linspace (- half_extent H) (half_extent H) H r * - s ))
+         (fun _ => vscale (qn W - 1) (scan_fast s c)) r j) /\
+    snd (init_knot rows cols H W K s c r j)
+    == snd (straight_knots K
+         (fun r => ( fst (canvas_centre rows cols) - half_extent W * s
+                       + linspace (- half_extent H) (half_extent H) H r * c,
+                     snd (canvas_centre rows cols) - half_extent W * c
+                       + linspace (- half_extent H) (half_extent H) H r * - s ))
+         (fun _ => vscale (qn W - 1) (scan_fast s c)) r j).
+Proof. exact init_knot_straight. Qed.
+Print Assumptions C15_init_knot_straight.
+
+(* the geometry after align_translation displaced a fresh stack by d is the exact geometry plus d *)
+Theorem C15_coords_after_translation :
+  forall (rows cols : Z) (H W K : nat) (s c : Q) (d : vec) (r col : nat),
+    (1 <= K <= 4)%nat -> (r < H)%nat -> (col < W)%nat ->
+    fst (transform_coordinates W K s c (fun r j => vadd (init_knot rows cols H W K s c r j) d) r col)
+    == fst (expected_coordinate rows cols H W s c r col) + fst d /\
+    snd (transform_coordinates W K s c (fun r j => vadd (init_knot rows cols H W K s c r j) d) r col)
+    == snd (expected_coordinate rows cols H W s c r col) + snd d.
+Proof. exact coords_after_translation. Qed.
+Print Assumptions C15_coords_after_translation.
+
+(* (outside the property text, which names translation alignment only) the knot update of
+   align_affine shears the exact geometry by (r - (H-1)/2) * dxy for every knot count *)
+Theorem C15_coords_after_affine :
+  forall (rows cols : Z) (H W K : nat) (s c : Q) (dxy : vec) (r col : nat),
+    (1 <= K <= 4)%nat -> (r < H)%nat -> (col < W)%nat ->
+    fst (transform_coordinates W K s c (affine_update_knots H dxy (init_knot rows cols H W K s c)) r col)
+    == fst (expected_coordinate rows cols H W s c r col) + (qn r - half_extent H) * fst dxy /\
+    snd (transform_coordinates W K s c (affine_update_knots H dxy (init_knot rows cols H W K s c)) r col)
+    == snd (expected_coordinate rows cols H W s c r col) + (qn r - half_extent H) * snd dxy.
+Proof. exact coords_after_affine. Qed.
+Print Assumptions C15_coords_after_affine.
+
+(* a displacement that depends on the scan line (arbitrary knots): every pixel of line r moves by d r *)
+Theorem C15_displacement_equivariant :
+  forall (W K : nat) (s c : Q) (kn : knots_t) (d : nat -> vec) (r col : nat),
+    (1 <= K <= 4)%nat ->
+    fst (transform_coordinates W K s c (fun r j => vadd (kn r j) (d r)) r col)
+    == fst (transform_coordinates W K s c kn r col) + fst (d r) /\
+    snd (transform_coordinates W K s c (fun r j => vadd (kn r j) (d r)) r col)
+    == snd (transform_coordinates W K s c kn r col) + snd (d r).
+Proof. exact displacement_equivariant. Qed.
+Print Assumptions C15_displacement_equivariant.
+
+(* "scan-direction ROTATION": the placement scales squared distances by s^2 + c^2, so it is an
+   isometry exactly under the trigonometric oracle contract s^2 + c^2 = 1, and it sends the image
+   centre to the canvas centre *)
+Theorem C15_placement_isometry :
+  forall (rows cols : Z) (H W : nat) (s c : Q) (r col r' col' : nat),
+    s * s + c * c == 1 ->
+    let p := expected_coordinate rows cols H W s c r col in
+    let q := expected_coordinate rows cols H W s c r' col' in
+    (fst p - fst q) * (fst p - fst q) + (snd p - snd q) * (snd p - snd q)
+    == (qn r - qn r') * (qn r - qn r') + (qn col - qn col') * (qn col - qn col').
+Proof. exact placement_isometry. Qed.
+Print Assumptions C15_placement_isometry.
+
+Theorem C15_placement_centre :
+  forall (rows cols : Z) (H W : nat) (s c : Q),
+    (1 <= H)%nat -> (1 <= W)%nat ->
+    let e := expected_coordinate rows cols H W s c in
+    fst (e 0 0)%nat + fst (e (H - 1) (W - 1))%nat == 2 * fst (canvas_centre rows cols) /\
+    snd (e 0 0)%nat + snd (e (H - 1) (W - 1))%nat == 2 * snd (canvas_centre rows cols).
+Proof. exact placement_centre. Qed.
+Print Assumptions C15_placement_centre.
+
+(* the canvas of preprocess is never empty inside the domain, so the weight-sum clause holds end to
+   end (canvas from the pad fraction, initial knots, splat) without side conditions *)
+Theorem C15_canvas_dim_pos :
+  forall (n : nat) (pad : Q),
+    ((2 <= n)%nat /\ 0 <= pad) \/ ((1 <= n)%nat /\ 0 < pad) -> (0 < canvas_dim n pad)%Z.
+Proof. exact canvas_dim_pos. Qed.
+Print Assumptions C15_canvas_dim_pos.
+
+Theorem C15_preprocess_weights_total :
+  forall (H W K : nat) (pad s c : Q),
+    ((2 <= H)%nat /\ (2 <= W)%nat /\ 0 <= pad) \/ ((1 <= H)%nat /\ (1 <= W)%nat /\ 0 < pad) ->
+    qsum (preprocess_weights H W K pad s c) == qn (H * W).
+Proof. exact preprocess_weights_total. Qed.
+Print Assumptions C15_preprocess_weights_total.
+
+(* the wrapped flat index is the row-major index of (i mod rows, j mod cols) *)
+Theorem C15_flat_index_unravel :
+  forall (rows cols i j : Z),
+    (0 < rows)%Z -> (0 < cols)%Z ->
+    unravel cols (flat_index rows cols i j) = ((i mod rows)%Z, (j mod cols)%Z).
+Proof. exact flat_index_unravel. Qed.
+Print Assumptions C15_flat_index_unravel.
+
+(* a pixel landing exactly on a grid point puts all its weight on that cell *)
+Theorem C15_splat_on_grid :
+  forall (rows cols x y : Z),
+    Forall2 Qeq (map snd (splat rows cols (inject_Z x, inject_Z y))) [1; 0; 0; 0] /\
+    fst (hd (0%Z, 0) (splat rows cols (inject_Z x, inject_Z y))) = flat_index rows cols x y.
+Proof. exact splat_on_grid. Qed.
+Print Assumptions C15_splat_on_grid.
+
+(* warp_image(upsample_factor): coordinates scaled by `up`, canvas round(shape * up): still H*W *)
+Theorem C15_warp_weights_up_total :
+  forall (urows ucols : Z) (up : Q) (H W K : nat) (s c : Q) (kn : knots_t),
+    (0 < urows)%Z -> (0 < ucols)%Z ->
+    qsum (warp_weights_up urows ucols up H W K s c kn) == qn (H * W).
+Proof. exact warp_weights_up_total. Qed.
+Print Assumptions C15_warp_weights_up_total.
+
+(* bilinear_kde(max_batch_size): accumulating batch by batch equals one pass, for every cutting of
+   the point list into consecutive batches — in particular batches of at most b points *)
+Theorem C15_cell_weight_batched_any :
+  forall (rows cols : Z) (batches : list (list vec)) (k : Z),
+    cell_weight_batched rows cols batches k == cell_weight (contributions rows cols (concat batches)) k.
+Proof. exact cell_weight_batched_any. Qed.
+Print Assumptions C15_cell_weight_batched_any.
+
+Theorem C15_cell_weight_batched_chunks :
+  forall (rows cols : Z) (b : nat) (pts : list vec) (k : Z),
+    (1 <= b)%nat ->
+    cell_weight_batched rows cols (chunks b pts) k == cell_weight (contributions rows cols pts) k.
+Proof. exact cell_weight_batched_chunks. Qed.
+Print Assumptions C15_cell_weight_batched_chunks.
+
+(* the reference of the measuring loop is the arithmetic mean of the images merged so far, and does
+   not change while identical images are merged *)
+Theorem C15_ref_running_mean :
+  forall (x0 : Q) (xs : list Q), ref_after x0 xs == qsum (x0 :: xs) / qn (S (length xs)).
+Proof. exact ref_running_mean. Qed.
+Print Assumptions C15_ref_running_mean.
+
+Theorem C15_ref_identical_fixed :
+  forall (x0 : Q) (xs : list Q), (forall x, In x xs -> x == x0) -> ref_after x0 xs == x0.
+Proof. exact ref_identical_fixed. Qed.
+Print Assumptions C15_ref_identical_fixed.
+
+(* any number of align_translation passes that each measure zero shifts leave every knot in place *)
+Theorem C15_translation_fixed_point_passes :
+  forall (n : nat) (mis : option Q) (passes : list (nat -> vec)) (kn : nat -> knots_t) (i r j : nat),
+    (i < n)%nat ->
+    (forall sh, In sh passes -> forall k, (1 <= k < n)%nat -> fst (sh k) == 0 /\ snd (sh k) == 0) ->
+    fst (align_passes n mis passes kn i r j) == fst (kn i r j) /\
+    snd (align_passes n mis passes kn i r j) == snd (kn i r j).
+Proof. exact translation_fixed_point_passes. Qed.
+Print Assumptions C15_translation_fixed_point_passes.
+
+(* stacks in which only the first m images are identical (zero measured shifts among them): these
+   images move rigidly together — the same displacement for every knot of every one of them — with
+   any threshold as long as the last image of the stack is not one of them; without a threshold the
+   displacement is minus the mean measured shift, and applied shifts differ exactly by measured ones *)
+Theorem C15_partial_identical_rigid :
+  forall (n : nat) (mis : option Q) (shifts : nat -> vec) (kn : nat -> knots_t)
+         (m i i' r j r' j' : nat),
+    (forall k, (1 <= k < m)%nat -> fst (shifts k) == 0 /\ snd (shifts k) == 0) ->
+    (i < m)%nat -> (i' < m)%nat ->
+    mis = None \/ (m <= n - 1)%nat ->
+    fst (align_translation_knots n mis shifts kn i r j) - fst (kn i r j)
+    == fst (align_translation_knots n mis shifts kn i' r' j') - fst (kn i' r' j') /\
+    snd (align_translation_knots n mis shifts kn i r j) - snd (kn i r j)
+    == snd (align_translation_knots n mis shifts kn i' r' j') - snd (kn i' r' j').
+Proof. exact partial_identical_rigid. Qed.
+Print Assumptions C15_partial_identical_rigid.
+
+Theorem C15_partial_identical_displacement :
+  forall (n : nat) (shifts : nat -> vec) (kn : nat -> knots_t) (m i r j : nat),
+    (forall k, (1 <= k < m)%nat -> fst (shifts k) == 0 /\ snd (shifts k) == 0) ->
+    (i < m)%nat ->
+    fst (align_translation_knots n None shifts kn i r j) - fst (kn i r j)
+    == - fst (mean_shift n (measured shifts)) /\
+    snd (align_translation_knots n None shifts kn i r j) - snd (kn i r j)
+    == - snd (mean_shift n (measured shifts)).
+Proof. exact partial_identical_displacement. Qed.
+Print Assumptions C15_partial_identical_displacement.
+
+Theorem C15_applied_shift_difference :
+  forall (n : nat) (shifts : nat -> vec) (i j : nat),
+    fst (applied_shift n None shifts i) - fst (applied_shift n None shifts j)
+    == fst (measured shifts i) - fst (measured shifts j) /\
+    snd (applied_shift n None shifts i) - snd (applied_shift n None shifts j)
+    == snd (measured shifts i) - snd (measured shifts j).
+Proof. exact applied_shift_difference. Qed.
+Print Assumptions C15_applied_shift_difference.
+
+(* ------------------------------------------------------------------ non-vacuity (round 3) *)
+(* a sheared, shifted, NON-initial straight knot array with 4 knots on a 5-pixel line: knot j at
+   (2, 1) + j/3 * (3, -6); pixel 3 (u = 3/4) sits at (2 + 9/4, 1 - 9/2) *)
+Example C15_nonvacuous_straight_knots :
+  (2 <= 4 <= 4)%nat /\
+  (forall j, (j < 4)%nat ->
+     fst ((fun (_ j : nat) => (2 + basis 4 j * 3, 1 + basis 4 j * -6)) 0%nat j) == 2 + basis 4 j * 3 /\
+     snd ((fun (_ j : nat) => (2 + basis 4 j * 3, 1 + basis 4 j * -6)) 0%nat j) == 1 + basis 4 j * -6) /\
+  fst (transform_coordinates 5 4 0 1 (fun _ j => (2 + basis 4 j * 3, 1 + basis 4 j * -6)) 0 3) == 17 # 4 /\
+  snd (transform_coordinates 5 4 0 1 (fun _ j => (2 + basis 4 j * 3, 1 + basis 4 j * -6)) 0 3) == -7 # 2.
+Proof.
+  split; [lia|]. split; [intros j _; split; reflexivity|]. split; vm_compute; reflexivity.
+Qed.
+
+(* a CURVED 3-knot line is not affine: the hypothesis of C15_coords_straight_knots matters *)
+Example C15_nonvacuous_curved_knots :
+  fst (transform_coordinates 5 3 0 1 (fun _ j => (match j with 1%nat => 1 | _ => 0 end, 0)) 0 1) == 3 # 4.
+Proof. vm_compute. reflexivity. Qed.
+
+(* (3/5, 4/5) is a rational unit vector: the isometry hypothesis is satisfiable *)
+Example C15_nonvacuous_isometry : (3 # 5) * (3 # 5) + (4 # 5) * (4 # 5) == 1.
+Proof. vm_compute. reflexivity. Qed.
+
+(* canvas positivity: the excluded input really is degenerate, and 5 rows with no padding give a
+   4-row canvas (round half to even) — smaller than the image, the splat wraps and still sums *)
+Example C15_nonvacuous_canvas :
+  canvas_dim 1 0 = 0%Z /\ canvas_dim 5 0 = 4%Z /\ canvas_dim 2 0 = 2%Z /\ canvas_dim 1 (1 # 100) = 2%Z /\
+  qsum (preprocess_weights 5 2 3 0 (3 # 5) (4 # 5)) == 10.
+Proof. repeat split; vm_compute; reflexivity. Qed.
+
+(* batching: 3 points in batches of 2 *)
+Example C15_nonvacuous_batched :
+  chunks 2 [(1 # 2, 1 # 4); (5 # 2, -1 # 4); (1 # 2, 1 # 4)] = [[(1 # 2, 1 # 4); (5 # 2, -1 # 4)]; [(1 # 2, 1 # 4)]] /\
+  cell_weight_batched 3 3 (chunks 2 [(1 # 2, 1 # 4); (5 # 2, -1 # 4); (1 # 2, 1 # 4)]) 0 == 9 # 8.
+Proof. split; vm_compute; reflexivity. Qed.
+
+(* running reference: merging 4, 10 into 1 gives the mean 5; three equal values stay *)
+Example C15_nonvacuous_ref :
+  ref_after 1 [4; 10] == 5 /\ ref_after 7 [7; 7; 7] == 7.
+Proof. split; vm_compute; reflexivity. Qed.
+
+(* partly identical stack of 3 (images 0, 1 identical, image 2 shifted by (3, -6)): images 0 and 1
+   both move by (-1, 2), image 2 by (2, -4) *)
+Example C15_nonvacuous_partial :
+  let sh := fun k : nat => match k with 2%nat => (3, -6) | _ => (0, 0) end in
+  (forall k, (1 <= k < 2)%nat -> fst (sh k) == 0 /\ snd (sh k) == 0) /\
+  fst (align_translation_knots 3 None sh (fun _ _ _ => (5, 7)) 0%nat 0%nat 0%nat) == 4 /\
+  snd (align_translation_knots 3 None sh (fun _ _ _ => (5, 7)) 1%nat 0%nat 0%nat) == 9 /\
+  fst (align_translation_knots 3 None sh (fun _ _ _ => (5, 7)) 2%nat 0%nat 0%nat) == 7.
+Proof.
+  cbv zeta. split.
+  - intros k Hk. assert (k = 1%nat) by lia. subst k. split; reflexivity.
+  - repeat split; vm_compute; reflexivity.
+Qed.
